@@ -81,9 +81,9 @@ def build(repo=None):
             import shutil
             shutil.rmtree(link)
         os.symlink(os.path.join(VERIF, 'native', 'src'), link)
-    env = dict(os.environ, CARGO_TARGET_DIR=os.path.join(ROOT, 'target'), CARGO_NET_OFFLINE='true')
+    env = dict(os.environ, CARGO_TARGET_DIR=os.path.join(ROOT, 'target-' + key), CARGO_NET_OFFLINE='true')
     p = subprocess.run(['cargo', 'build', '--release', '--offline', '--quiet'], cwd=crate, env=env, capture_output=True, text=True)
-    exe = os.path.join(ROOT, 'target', 'release', 'fastqr_native')
+    exe = os.path.join(ROOT, 'target-' + key, 'release', 'fastqr_native')   # one target dir per tree: the binary path must never be shared between trees
     if p.returncode != 0 or not os.path.exists(exe):
         raise NativeUnavailable('native oracle does not build against this tree: ' + (p.stderr or '')[-600:].replace('\n', ' | '))
     return exe
